@@ -62,6 +62,7 @@ type FuncSpec struct {
 	Used       bool
 	TouchesMaps bool
 	DeadReturns map[int]bool // returns (by ordinal) that are unreachable under the callees' contracts
+	NoWrap     bool // C: unsigned + and * must not wrap around either (obligations `nowrap`)
 	NoBody     bool // C contract used at call sites only (body is BLST / not translated)
 	Tags       string // extra build tags of the configuration in which the body is verified
 }
@@ -85,6 +86,7 @@ type SpecDB struct {
 	Ghosts []GhostDecl
 	HeapTypes []string // named struct types that only ever live in their own heap objects
 	InvWriters []InvWriter
+	Guards     map[string]string // "pkg.T.field" -> name of the lock field of T guarding it ("" = immutable after construction)
 	Globals []Clause   // facts about package-level variables assumed at every function entry
 	GlobalPkg []string
 	Errors []string
@@ -190,6 +192,8 @@ func (db *SpecDB) LoadFile(path string, pkg string) error {
 					if i < len(ws) {
 						cur.Tags = ws[i]
 					}
+				case "nowrap":
+					cur.NoWrap = true
 				case "nobody":
 					cur.NoBody = true
 				case "inline":
@@ -354,6 +358,25 @@ func (db *SpecDB) LoadFile(path string, pkg string) error {
 				cur.DeadReturns = map[int]bool{}
 			}
 			cur.DeadReturns[n] = true
+		case "guarded", "immutable":
+			// guarded T.f by lockField   |   immutable T.f
+			ws := strings.Fields(rest)
+			if (word == "guarded" && (len(ws) != 3 || ws[1] != "by")) || (word == "immutable" && len(ws) != 1) {
+				fail("guarded T.f by lock | immutable T.f")
+				continue
+			}
+			tn := ws[0]
+			if strings.Count(tn, ".") < 2 && pkg != "" {
+				tn = pkg + "." + tn
+			}
+			if db.Guards == nil {
+				db.Guards = map[string]string{}
+			}
+			if word == "guarded" {
+				db.Guards[tn] = ws[2]
+			} else {
+				db.Guards[tn] = ""
+			}
 		case "invariant-writers":
 			ws := strings.Fields(rest)
 			if len(ws) < 3 || ws[1] != "props" {
